@@ -34,7 +34,11 @@ translated from a translation unit whose m4ri_config.h says __M4RI_HAVE_SSE2 0, 
 SSE2 branch of that one function stays outside the translation (it is covered by the correspondence runs only).
 
 Usage:  translate_acc.py [--stdout] [--out FILE]      (exit status 1 if a required function was refused)
-        translate_acc.py --selftest                   (edits scratch copies of the repository; see selftest())
+        translate_acc.py --selftest                   (edits scratch copies of the repository; see selftest();
+                                                       12 cases, about 20 minutes)
+Translated: mzd_row, mzd_row_const, mzd_read_bit, mzd_write_bit, mzd_read_bits, mzd_xor_bits, mzd_and_bits,
+mzd_clear_bits, _mzd_row_swap, mzd_row_swap, mzd_col_swap_in_rows, mzd_col_swap, mzd_row_add_offset (scalar branch).
+Specifications: coq/Leaf/AccessSpecs.v .. AccessSpecs9.v, restated in coq/Properties/Properties_C13t.v.
 The source is the working tree of vlib.REPO (environment VERIF_REPO), copied by vlib.copy_tree().
 """
 import json, os, re, subprocess, sys
@@ -65,6 +69,7 @@ UNITS_A = [
         ("_mzd_row_swap", "_mzd_row_swap"),
         ("mzd_row_swap", "mzd_row_swap"),
         ("mzd_col_swap_in_rows", "mzd_col_swap_in_rows"),
+        ("mzd_col_swap", "mzd_col_swap"),
     ]),
     ("acc_scalar", STUB_ACC, 0, [
         ("mzd_row_add_offset", "mzd_row_add_offset"),
@@ -617,24 +622,43 @@ def regenerate_accessors(path=None):
 # and compiles the specification files against the result in a scratch Coq tree.
 # ------------------------------------------------------------------------------------------------
 SPEC_FILES = ["Leaf/AccessSpecs.v", "Leaf/AccessSpecs2.v", "Leaf/AccessSpecs3.v", "Leaf/AccessSpecs4.v",
-              "Leaf/AccessSpecs5.v", "Leaf/AccessSpecs6.v", "Properties/Properties_C13t.v"]
+              "Leaf/AccessSpecs5.v", "Leaf/AccessSpecs6.v", "Leaf/AccessSpecs7.v", "Leaf/AccessSpecs8.v",
+              "Leaf/AccessSpecs9.v", "Properties/Properties_C13t.v"]
+
+A1, A2, A4, A5, A7, A8 = ("Leaf/AccessSpecs.v", "Leaf/AccessSpecs2.v", "Leaf/AccessSpecs4.v", "Leaf/AccessSpecs5.v",
+                          "Leaf/AccessSpecs7.v", "Leaf/AccessSpecs8.v")
 
 SELFTEST_CASES = [
-    # (name, file, old text, new text, expectation: "proof" = a spec file no longer compiles, "refuse" = refusal)
-    ("unchanged", None, None, None, "ok"),
+    # (name, file, old text, new text, expectation, spec files to compile (None = all))
+    #   expectation: "ok" = everything still compiles, "proof" = a spec file no longer compiles, "refuse" = refusal
+    ("unchanged", None, None, None, "ok", None),
     ("xor_bits: values >> space -> values >> spot", "mzd.h",
-     "if (n > space) { row[block + 1] ^= values >> space; }", "if (n > space) { row[block + 1] ^= values >> spot; }", "proof"),
+     "if (n > space) { row[block + 1] ^= values >> space; }", "if (n > space) { row[block + 1] ^= values >> spot; }",
+     "proof", [A1, A2]),
     ("read_bits: spill off by one", "mzd.h",
-     "int const spill  = spot + n - m4ri_radix;", "int const spill  = spot + n - m4ri_radix + 1;", "proof"),
+     "int const spill  = spot + n - m4ri_radix;", "int const spill  = spot + n - m4ri_radix + 1;", "proof", [A1]),
     ("clear_bits: second word not complemented", "mzd.h",
-     "if (n > space) { row[block + 1] &= ~(values >> space); }", "if (n > space) { row[block + 1] &= (values >> space); }", "proof"),
+     "if (n > space) { row[block + 1] &= ~(values >> space); }", "if (n > space) { row[block + 1] &= (values >> space); }",
+     "proof", [A1, A2]),
     ("mzd_row: width instead of rowstride", "mzd.h",
-     "return M->data + M->rowstride * row;", "return M->data + M->width * row;", "proof"),
+     "return M->data + M->rowstride * row;", "return M->data + M->width * row;", "proof", [A1]),
     ("write_bit: also writes a member", "mzd.h",
-     "    word * truerow = mzd_row(M, row);", "    M->flags = 0; word * truerow = mzd_row(M, row);", "refuse"),
+     "    word * truerow = mzd_row(M, row);", "    M->flags = 0; word * truerow = mzd_row(M, row);", "refuse", [A1]),
     ("read_bit: harmless rewrite (same value)", "mzd.h",
      "return __M4RI_GET_BIT(truerow[col / m4ri_radix], col % m4ri_radix);",
-     "rci_t const c = col; return __M4RI_GET_BIT(truerow[c / m4ri_radix], c % m4ri_radix);", "ok"),
+     "rci_t const c = col; return __M4RI_GET_BIT(truerow[c / m4ri_radix], c % m4ri_radix);", "ok", [A1]),
+    ("_mzd_row_swap: second store of the swap stores a[i]", "mzd.h",
+     "    b[i] = tmp;", "    b[i] = a[i];", "proof", [A1, A4]),
+    ("row_add_offset: excess bits taken from src after the loop", "mzd.h",
+     "dst[i - 1] ^= src_last & ~mask_end;", "dst[i - 1] ^= src[i - 1] & ~mask_end;", "proof", [A1, A4, A5]),
+    ("col_swap_in_rows: two-word form shifts the wrong way", "mzd.h",
+     "min_ptr[max_offset] ^= xor_v << offset;", "min_ptr[max_offset] ^= xor_v >> offset;", "proof", [A1, A4, A7]),
+    ("col_swap_in_rows: unrolled loop advances 3 rows", "mzd.h",
+     "ptr += 4 * rowstride;", "ptr += 3 * rowstride;", "proof", [A1, A4, A7, A8]),
+    # the stated blind spot: the SSE2 branch of mzd_row_add_offset is not translated (the unit is built with
+    # __M4RI_HAVE_SSE2 0), so a change confined to it is NOT seen by this tie (correspondence runs cover it)
+    ("BLIND SPOT row_add_offset: change inside #if __M4RI_HAVE_SSE2", "mzd.h",
+     "      *dst++ ^= *src++;\n      --wide;", "      *dst++ |= *src++;\n      --wide;", "ok", [A1, A4, A5]),
 ]
 
 
@@ -663,7 +687,7 @@ def selftest(cases=None, verbose=True):
     try:
         specs = [f for f in SPEC_FILES if os.path.exists(os.path.join(vlib.COQ, f))]
         deps = [d for d in _vo_closure(specs) if d != "Leaf/Gen_access.v"]
-        for idx, (name, fname, old, new, expect) in enumerate(cases or SELFTEST_CASES):
+        for idx, (name, fname, old, new, expect, only) in enumerate(cases or SELFTEST_CASES):
             repo = os.path.join(base, "repo%d" % idx)
             os.makedirs(os.path.join(repo, "m4ri"))
             for f in os.listdir(os.path.join(vlib.REPO, "m4ri")):
@@ -690,7 +714,7 @@ def selftest(cases=None, verbose=True):
             outcome, detail = "ok", ""
             if refusals:
                 outcome, detail = "refuse", refusals[0][:200]
-            for f in ["Leaf/Gen_access.v"] + specs:
+            for f in ["Leaf/Gen_access.v"] + [x for x in specs if only is None or x in only]:
                 if outcome not in ("ok", "refuse"):
                     break
                 q = vlib.run(["coqc", "-Q", ".", "M4", f], cwd=coq, timeout=900)
